@@ -453,6 +453,13 @@ impl Prop for C16 {
     fn id(&self) -> &'static str {
         "C16"
     }
+    /// every case runs on a fresh thread: the reads of one case form a call history on one thread
+    /// (control, then one damaged image after the other), and nothing a reader keeps per thread can
+    /// leak from one case into the next - so a reader whose verdict depends on earlier reads is
+    /// reported as an accepted damaged file with a history that replays, not as a digest mismatch
+    fn isolate(&self) -> bool {
+        true
+    }
     fn level(&self) -> &'static str {
         "fault_enumeration"
     }
